@@ -284,6 +284,19 @@ def definitions(A, directed):
     with np.errstate(divide="ignore"):
         inv = np.where(off, 1.0 / np.where(off, D, 1), 0.0)
     out["global_efficiency"] = inv.sum() / float(n * (n - 1))
+    # vulnerability: relative drop of the efficiency when the node is removed
+    # (efficiency of the remaining n - 1 nodes, isolated nodes included)
+    E = out["global_efficiency"]
+    if n >= 3 and E > 0:
+        V = np.zeros(n)
+        for i in range(n):
+            keep = [k for k in range(n) if k != i]
+            Di = bfs_dist(A[np.ix_(keep, keep)])
+            offi = ~np.eye(n - 1, dtype=bool)
+            with np.errstate(divide="ignore"):
+                invi = np.where(offi, 1.0 / np.where(offi, Di, 1), 0.0)
+            V[i] = (E - invi.sum() / float((n - 1) * (n - 2))) / E
+        out["local_vulnerability"] = V
     if not directed:
         # closeness over the reachable nodes (igraph's definition)
         cl = np.full(n, np.nan)
@@ -323,6 +336,7 @@ IMPL = {
     "path_lengths": lambda n: n.path_lengths(),
     "average_path_length": lambda n: n.average_path_length(),
     "global_efficiency": lambda n: n.global_efficiency(),
+    "local_vulnerability": lambda n: n.local_vulnerability(),
     "closeness": lambda n: n.closeness(),
     "betweenness": lambda n: n.betweenness(),
     "diameter": lambda n: n.diameter(),
